@@ -20,6 +20,9 @@ import (
 	"sync"
 	"time"
 
+	dag "github.com/ipfs/boxo/ipld/merkledag"
+	mdtest "github.com/ipfs/boxo/ipld/merkledag/test"
+	ft "github.com/ipfs/boxo/ipld/unixfs"
 	"github.com/ipfs/boxo/mfs"
 	"github.com/ipfs/go-cid"
 	mh "github.com/multiformats/go-multihash"
@@ -848,6 +851,121 @@ func execEv(c vh.Case, o *vh.Out) {
 	}
 }
 
+// ------------------------------------------------------------------ Root-level cases: Close publishes the latest root
+
+// A real mfs.Root with a recording publish function, and a twin Root without a republisher on which
+// the same ops are applied; the twin's root node (GetNode syncs every cached child) is the independent
+// answer to "what is the latest root". Ops all answer "ok" (the Lean side has no model of MFS directories;
+// the model's statement for these cases is c21_close_flushes + c21_waitpub: Close publishes the latest value).
+func fileNode(i int) *dag.ProtoNode {
+	nd := dag.NodeWithData(ft.FilePBData([]byte(fmt.Sprintf("c21-file-%d", i)), uint64(len(fmt.Sprintf("c21-file-%d", i)))))
+	return nd
+}
+
+func execRoot(c vh.Case, o *vh.Out) {
+	ctx := context.Background()
+	ds := mdtest.Mock()
+	var mu sync.Mutex
+	var published []cid.Cid
+	pf := func(_ context.Context, c cid.Cid) error {
+		mu.Lock()
+		published = append(published, c)
+		mu.Unlock()
+		return nil
+	}
+	var rt, twin *mfs.Root
+	apply := func(r *mfs.Root, f []string) {
+		switch f[0] {
+		case "putnode":
+			nd := fileNode(vh.Atoi(f[2]))
+			ds.Add(ctx, nd)
+			mfs.PutNode(r, "/"+f[1], nd)
+		case "unlink":
+			r.GetDirectory().Unlink(f[1])
+		case "mkdir":
+			mfs.Mkdir(r, "/"+f[1], mfs.MkdirOpts{Flush: f[2] == "1"})
+		case "putin": // a file inside a subdirectory (goes through the child cache)
+			nd := fileNode(vh.Atoi(f[3]))
+			ds.Add(ctx, nd)
+			mfs.PutNode(r, "/"+f[1]+"/"+f[2], nd)
+		case "flush":
+			mfs.FlushPath(ctx, r, "/")
+		case "flushmemfree":
+			r.FlushMemFree(ctx)
+		case "lookup":
+			mfs.Lookup(r, "/"+f[1])
+		}
+	}
+	var initial cid.Cid
+	for _, line := range c.Ops {
+		f := strings.Fields(line)
+		switch f[0] {
+		case "root":
+			var err error
+			rt, err = mfs.NewEmptyRoot(ctx, ds, pf, nil)
+			if err != nil {
+				panic(err)
+			}
+			twin, err = mfs.NewEmptyRoot(ctx, ds, nil, nil)
+			if err != nil {
+				panic(err)
+			}
+			nd, _ := twin.GetDirectory().GetNode()
+			initial = nd.Cid()
+			o.Kind("root")
+		case "close":
+			want, err := twin.GetDirectory().GetNode()
+			if err != nil {
+				panic(err)
+			}
+			cerr := rt.Close()
+			mu.Lock()
+			last := initial
+			if len(published) > 0 {
+				last = published[len(published)-1]
+				o.Nontrivial()
+			}
+			n := len(published)
+			mu.Unlock()
+			if cerr == nil && !last.Equals(want.Cid()) {
+				o.Fail("root-close-unpublished", "Root.Close returned nil but the last published root (%d publishes) is not the root's final node", n)
+			}
+			o.Kind("root-close")
+		default:
+			apply(rt, f)
+			apply(twin, f)
+			o.Kind("root-" + f[0])
+		}
+		o.Emit("ok")
+	}
+}
+
+func genRoot(r *vh.Rand, tier string, id string) vh.Case {
+	c := vh.Case{ID: id, Ops: []string{"root"}}
+	names := []string{"a", "b", "c", "d"}
+	m := r.Range(1, 10)
+	for i := 0; i < m; i++ {
+		switch k := r.Intn(12); {
+		case k < 4:
+			c.Ops = append(c.Ops, fmt.Sprintf("putnode %s %d", vh.Pick(r, names), r.Intn(5)))
+		case k < 6:
+			c.Ops = append(c.Ops, fmt.Sprintf("unlink %s", vh.Pick(r, names)))
+		case k < 8:
+			c.Ops = append(c.Ops, fmt.Sprintf("mkdir %s %d", vh.Pick(r, []string{"d", "e"}), r.Intn(2)))
+		case k < 9:
+			c.Ops = append(c.Ops, fmt.Sprintf("putin %s %s %d", vh.Pick(r, []string{"d", "e"}), vh.Pick(r, names), r.Intn(5)))
+		case k < 10:
+			c.Ops = append(c.Ops, "flush")
+		case k < 11:
+			c.Ops = append(c.Ops, "flushmemfree")
+		default:
+			c.Ops = append(c.Ops, fmt.Sprintf("lookup %s", vh.Pick(r, names)))
+		}
+	}
+	c.Ops = append(c.Ops, "close")
+	return c
+}
+
 // ------------------------------------------------------------------ generator
 
 func genEv(r *vh.Rand, tier string, id string) vh.Case {
@@ -982,7 +1100,9 @@ func genRun(r *vh.Rand, tier string, id string) vh.Case {
 func gen(r *vh.Rand, tier string, n int, emit func(vh.Case)) {
 	for i := 0; i < n; i++ {
 		rr := r.Fork()
-		if i%4 == 3 {
+		if i%8 == 5 {
+			emit(genRoot(rr, tier, strconv.Itoa(i)))
+		} else if i%4 == 3 {
 			emit(genRun(rr, tier, strconv.Itoa(i)))
 		} else {
 			emit(genEv(rr, tier, strconv.Itoa(i)))
@@ -993,6 +1113,10 @@ func gen(r *vh.Rand, tier string, n int, emit func(vh.Case)) {
 func exec(c vh.Case, o *vh.Out) {
 	if len(c.Ops) > 0 && strings.HasPrefix(c.Ops[0], "run ") {
 		execRun(c, o)
+		return
+	}
+	if len(c.Ops) > 0 && c.Ops[0] == "root" {
+		execRoot(c, o)
 		return
 	}
 	execEv(c, o)
